@@ -139,6 +139,11 @@ class Ctx:
                     shown.add(path)
             if len(self.violations) > 20:
                 print("  (... %d violations in total)" % len(self.violations))
+            import collections
+            agg = collections.Counter(canon(k) for k, _ in self.violations)
+            print("  violation keys (count):")
+            for k, c in agg.most_common(40):
+                print("   %6d  %s" % (c, k[:260]))
             return 1
         print("OK property=%s tier=%s states=%d impl_cases=%d wall=%.1fs" %
               (self.prop, self.tier, self.states, self.traces, wall))
